@@ -27,6 +27,10 @@ use std::sync::Arc;
 
 const FLS: [Flavour; 3] = [Flavour::As, Flavour::V4, Flavour::V6];
 
+pub fn time_at_ns(secs: i64, nanos: u32) -> Time {
+    Time::new(chrono::DateTime::<chrono::Utc>::from_timestamp(secs, nanos).unwrap())
+}
+
 pub fn time_at(secs: i64) -> Time {
     Time::new(chrono::DateTime::<chrono::Utc>::from_timestamp(secs, 0).unwrap())
 }
@@ -383,6 +387,28 @@ enum Outcome {
 
 /// Decodes `der` and validates it as `kind` under `issuer` at `now`.
 fn validate(ctx: &mut Ctx, w: &World, kind: Kind, der_bytes: &[u8], issuer: Option<&ResourceCert>, strict: bool, now: i64) -> Option<Outcome> {
+    validate_ns(ctx, w, kind, der_bytes, issuer, strict, now, 0)
+}
+
+/// As `validate` but through `verify_ta_ref_at` (the by-reference trust anchor path).
+fn validate_ta_ref(ctx: &mut Ctx, der_bytes: &[u8], strict: bool, now: i64) -> Option<Outcome> {
+    ctx.no_panic("validate-ta-ref", || json!({"cert": hex(der_bytes), "now": now, "strict": strict}), move || {
+        let cert = match Cert::decode(der_bytes) {
+            Ok(c) => c,
+            Err(e) => return Outcome::Rejected(format!("decode: {}", e)),
+        };
+        if let Err(e) = cert.inspect_ta(strict) {
+            return Outcome::Rejected(e.to_string());
+        }
+        match cert.verify_ta_ref_at(strict, time_at(now)) {
+            Ok(()) => Outcome::Accepted(None),
+            Err(e) => Outcome::Rejected(e.to_string()),
+        }
+    })
+}
+
+#[allow(clippy::too_many_arguments)]
+fn validate_ns(ctx: &mut Ctx, w: &World, kind: Kind, der_bytes: &[u8], issuer: Option<&ResourceCert>, strict: bool, now: i64, nanos: u32) -> Option<Outcome> {
     let what = format!("validate-{:?}", kind).to_lowercase();
     let tal = w.tal.clone();
     ctx.no_panic(&what, || json!({"cert": hex(der_bytes), "now": now, "strict": strict}), move || {
@@ -390,7 +416,7 @@ fn validate(ctx: &mut Ctx, w: &World, kind: Kind, der_bytes: &[u8], issuer: Opti
             Ok(c) => c,
             Err(e) => return Outcome::Rejected(format!("decode: {}", e)),
         };
-        let now = time_at(now);
+        let now = time_at_ns(now, nanos);
         match kind {
             Kind::Ta => match cert.validate_ta_at(tal, strict, now) {
                 Ok(rc) => Outcome::Accepted(Some(rc)),
@@ -410,6 +436,10 @@ fn validate(ctx: &mut Ctx, w: &World, kind: Kind, der_bytes: &[u8], issuer: Opti
             },
         }
     })
+}
+
+fn node_ta_der(ta: &Spec, w: &World) -> Vec<u8> {
+    build(w, ta)
 }
 
 /// Asserts rejection of a tampered variant.
@@ -501,11 +531,26 @@ fn run_chain(ctx: &mut Ctx, w: &World, rng: &mut Rng, chain_no: u64) {
     check_resources(ctx, "ta", &ta_rc, &ta_eff, &everything, &detail);
     // TA tampers
     if rng.chance(1, 3) {
-        // inherited resources in a trust anchor
+        // the by-reference trust anchor path must agree
+        ctx.eval();
+        if let Some(Outcome::Rejected(e)) = validate_ta_ref(ctx, &node_ta_der(&ta, w), strict, base) {
+            ctx.violation("C01:rejects-conforming:ta-by-reference", "a conforming trust anchor certificate was rejected by verify_ta_ref_at", json!({"error": e, "case": detail}));
+        }
+        // inherited resources in a trust anchor (each family in turn over the runs)
         let mut s = ta.clone();
-        s.claims[rng.usize_below(3)] = Claim::Inherit;
+        let fam = rng.usize_below(3);
+        s.claims[fam] = Claim::Inherit;
         let d = build(w, &s);
         expect_reject(ctx, w, "ta-inherit", Kind::Ta, &d, None, strict, base, &detail);
+        ctx.eval();
+        ctx.sig(&format!("tamper ta-inherit-by-reference family={}", fam));
+        if let Some(Outcome::Accepted(_)) = validate_ta_ref(ctx, &d, strict, base) {
+            ctx.violation(
+                &format!("C01:accepts:ta-inherit-by-reference:{}", FLS[fam].name()),
+                "a trust anchor certificate with inherited resources was accepted by verify_ta_ref_at",
+                json!({"family": FLS[fam].name(), "cert": hex(&d), "case": detail}),
+            );
+        }
         // self-signature by another key
         let mut s = ta.clone();
         s.issuer_key = (ta_key + 1) % nkeys;
@@ -628,6 +673,19 @@ fn tampers(ctx: &mut Ctx, w: &World, rng: &mut Rng, spec: &Spec, d: &[u8], issue
         ctx.sig(&format!("edge {} {:?}", edge, kind));
         if let Some(Outcome::Rejected(e)) = validate(ctx, w, kind, d, Some(&issuer.rc), strict, t) {
             ctx.violation(&format!("C01:rejects-conforming:{}", edge), "a certificate was rejected at an instant inside its validity window (end points are inclusive)", json!({"error": e, "cert": hex(d), "now": t, "case": detail}));
+        }
+    }
+    // 1b. a fraction of a second outside either end (evaluation times are not whole seconds in practice)
+    for (variant, t, ns) in [("time-1ms-after", spec.not_after, 1_000_000u32), ("time-999ms-after", spec.not_after, 999_000_000), ("time-1ms-before", spec.not_before - 1, 999_000_000)] {
+        ctx.eval();
+        ctx.sig(&format!("tamper {} {:?}", variant, kind));
+        ctx.obs(&format!("tamper_{}", variant), 1);
+        if let Some(Outcome::Accepted(_)) = validate_ns(ctx, w, kind, d, Some(&issuer.rc), strict, t, ns) {
+            ctx.violation(
+                &format!("C01:accepts:{}:{}", variant, format!("{:?}", kind).to_lowercase()),
+                "a certificate was accepted at an instant a fraction of a second outside its validity window",
+                json!({"variant": variant, "cert": hex(d), "seconds": t, "nanos": ns, "case": detail}),
+            );
         }
     }
     // 2. AKI missing / different, correctly re-signed by the issuer
